@@ -10,6 +10,7 @@
 -/
 import RbModel.Lemmas.Arabic
 import RbModel.Gen.ArabicScripts
+import RbModel.Gen.ArabicDispatch
 
 namespace RbModel.Arabic
 open RbModel.Spec.Joining
@@ -70,6 +71,52 @@ theorem C11_syriac_groups :
       = [(0x710, 0x710, 4)]
     ∧ RbModel.Gen.Arabic.joiningRanges.filter (fun r => r.2.2 == JoiningType.GroupDalathRish.toNat)
       = [(0x715, 0x716, 5), (0x72A, 0x72A, 5), (0x72F, 0x72F, 5)] := by decide +kernel
+
+/-! ## the dispatch in front of the table (`joining_type()`), read from the source -/
+
+/-- The range tests of `joining_type()` tile `JOINING_TABLE`: going through the arms in source order with the table
+    position `off` reached so far and the end `prevEnd` of the previous range — every arm starts at or after the previous
+    one's end and is not empty, subtracts its own lower bound, adds exactly the position reached (so arm k's length is
+    offset(k+1) − offset(k)), lies inside the `u >> shift` page it is tested in; after the last arm the position is the
+    table's length. -/
+def dispatchTiles (shift : Nat) : List (Nat × Nat × Nat × Nat × Nat) → Nat → Nat → Nat → Bool
+  | [], off, _, len => off == len
+  | (page, lo, hi, base, o) :: rest, off, prevEnd, len =>
+      decide (prevEnd ≤ lo) && decide (lo < hi) && base == lo && o == off
+        && (lo >>> shift) == page && ((hi - 1) >>> shift) == page && decide (hi ≤ 0x110000)
+        && dispatchTiles shift rest (off + (hi - lo)) hi len
+
+/-- maximal runs (start, end, entry) of equal non-`X` entries of a table slice whose first entry belongs to code point `u` -/
+def sliceRuns : List Nat → Nat → Option (Nat × Nat × Nat) → List (Nat × Nat × Nat)
+  | [], _, cur => cur.toList
+  | r :: rest, u, some (s, e, r') =>
+      if r = r' then sliceRuns rest (u + 1) (some (s, u, r))
+      else if r = JoiningType.X.toNat then (s, e, r') :: sliceRuns rest (u + 1) none
+      else (s, e, r') :: sliceRuns rest (u + 1) (some (u, u, r))
+  | r :: rest, u, none =>
+      if r = JoiningType.X.toNat then sliceRuns rest (u + 1) none else sliceRuns rest (u + 1) (some (u, u, r))
+
+set_option maxRecDepth 100000 in
+/-- **Every table entry is reachable and no arm is cut short**: the arms of `joining_type()` (parsed from the source on
+    every run, `..` and `..=` told apart) are ascending, disjoint, each inside its page, arm k covers exactly the table
+    slice between its offset constant and the next one, and the last arm ends at the table's end; every offset constant
+    is the one its name (the arm's first code point) says. -/
+theorem C11_dispatch_tiles_table :
+    dispatchTiles RbModel.Gen.ArabicDispatch.shift RbModel.Gen.ArabicDispatch.arms 0 0
+      RbModel.Gen.ArabicDispatch.table.length = true
+    ∧ RbModel.Gen.ArabicDispatch.arms.map (fun a => (a.2.1, a.2.2.2.2)) = RbModel.Gen.ArabicDispatch.offsets := by
+  decide +kernel
+
+set_option maxRecDepth 100000 in
+/-- The per-character table the MODEL uses (`Gen.Arabic.joiningRanges`, dumped through the compiled `joining_type()`)
+    is the parsed `JOINING_TABLE` laid out by the parsed arms (arm = code points [lo, hi), table slice from its offset):
+    the maximal runs of equal non-`X` entries of the slices, arm after arm, ARE the dumped runs.  Together with `C11_dispatch_tiles_table`: the model reads every entry of the table at the
+    code point the table's own layout gives it. -/
+theorem C11_dispatch_is_dumped_table :
+    (RbModel.Gen.ArabicDispatch.arms.map (fun a =>
+        sliceRuns ((RbModel.Gen.ArabicDispatch.table.drop a.2.2.2.2).take (a.2.2.1 - a.2.1)) a.2.1 none)).flatten
+      = RbModel.Gen.Arabic.joiningRanges := by
+  decide +kernel
 
 /-! ## the state table -/
 
@@ -177,6 +224,61 @@ theorem known_C11_context_truncated :
     joinWithContext stateTable contextLength [.D, .T, .T, .T, .T, .T] [.R] [] = .ok [ISOL]
     ∧ joinWithContext stateTable contextLength [] ([.D, .T, .T, .T, .T, .T] ++ [.R] ++ []) []
         = .ok [INIT, NONE, NONE, NONE, NONE, NONE, FINA] := ⟨rfl, rfl⟩
+
+/-! ## the raw context arrays: only `context_len` slots are read, the last context call wins -/
+
+/-- **What lies behind `context_len` is ignored.**  `set_pre_context` / `set_post_context` reset only the length and
+    overwrite the leading slots, `UnicodeBuffer::add` only zeroes the post-context length: the arrays keep what earlier
+    calls stored.  The joining pass (on ANY state table) gives the same actions for two buffers whose context arrays agree
+    on the first `context_len` slots, whatever the other slots hold. -/
+theorem C11_context_beyond_len_ignored (tbl : StateTable) (a a' b b' ws : List JoiningType) (n m : Nat)
+    (ha : a.take n = a'.take n) (hb : b.take m = b'.take m) :
+    arabicJoiningRaw tbl a n ws b m = arabicJoiningRaw tbl a' n ws b' m := by
+  unfold arabicJoiningRaw
+  rw [ha, hb]
+
+/-- non-vacuity: a stale dual-joining letter behind an empty / all-transparent pre-context does not join the text -/
+example : ([JoiningType.T, .D, .U].take 1 = [JoiningType.T, .U, .U].take 1)
+    ∧ arabicJoiningRaw stateTable [.T, .D, .U, .U, .U] 1 [.R] [.D, .U, .U, .U, .U] 0 = .ok [ISOL]
+    ∧ arabicJoiningRaw stateTable [.D, .D, .U, .U, .U] 0 [.R] [] 0 = .ok [ISOL] := ⟨rfl, rfl, rfl⟩
+
+/-- a context call leaves the array length alone and shows exactly its own characters in the first `len` slots -/
+theorem C11_store_context_visible {α : Type} (slots new : List α) (h : new.length ≤ slots.length) :
+    (storeContext slots new).1.take (storeContext slots new).2 = new
+    ∧ (storeContext slots new).1.length = slots.length := storeContext_visible slots new h
+
+example : storeContext [1, 2, 3, 4, 5] [9] = ([9, 2, 3, 4, 5], 1) := rfl
+
+/-- **The last context call wins, whatever the history.**  On a buffer that has seen ANY sequence of
+    `set_pre_context` / `set_post_context` / `add` calls (no `clear()`), `set_pre_context p` and `set_post_context q`
+    make the joining pass behave exactly as on a fresh buffer with only these two calls (`joinWithContext`, which
+    `C11_api_eq_spec` ties to the Unicode rules): nothing of an earlier, longer context shows. -/
+theorem C11_context_last_call_wins (tbl : StateTable) (n : Nat) (nul : JoiningType)
+    (cs : List (CtxCall JoiningType)) (p q ws : List JoiningType) :
+    let st := (((CtxState.fresh n nul).calls cs).call (.pre p)).call (.post q)
+    arabicJoiningRaw tbl st.pre st.preLen ws st.post st.postLen = joinWithContext tbl n p ws q := by
+  intro st
+  have h0 := ctxCalls_lengths cs (CtxState.fresh n nul)
+  have hf : (CtxState.fresh n nul).pre.length = n ∧ (CtxState.fresh n nul).post.length = n := by
+    simp [CtxState.fresh]
+  generalize hs1 : (CtxState.fresh n nul).calls cs = s1 at h0
+  have hp : s1.pre.length = n := by omega
+  have hq : s1.post.length = n := by omega
+  have v1 := C11_store_context_visible s1.pre (p.reverse.take s1.pre.length) (by simp; omega)
+  have v2 := C11_store_context_visible s1.post (q.take s1.post.length) (by simp; omega)
+  have e : st = ((s1.call (.pre p)).call (.post q)) := by simp [st, hs1]
+  unfold arabicJoiningRaw joinWithContext setPreContext setPostContext
+  rw [e]
+  simp only [CtxState.call]
+  rw [v1.1, v2.1, hp, hq]
+
+/-- non-vacuity: a long joining pre-context, replaced by an empty one: the text's first letter stays initial -/
+example :
+    let st := (((CtxState.fresh 5 JoiningType.U).calls [.pre [.D, .D, .D], .post [.D], .add [.D]]).call (.pre [])).call (.post [])
+    st.pre = [.D, .D, .D, .U, .U] ∧ st.preLen = 0
+    ∧ arabicJoiningRaw stateTable st.pre st.preLen [.D, .D] st.post st.postLen = .ok [INIT, FINA] := by
+  intro st
+  exact ⟨rfl, rfl, rfl⟩
 
 /-! ## transparent characters (R1) -/
 
